@@ -23,6 +23,16 @@ ITER = "multiboot2::memory_map::EFIMemoryAreaIter"
 DESC = "uefi_raw::table::boot::MemoryDescriptor"
 
 
+def _rem_payload(t):
+    """the Some payload of `a.checked_rem(b)` is a % b"""
+    if isinstance(t, tuple):
+        if t and t[0] == "fld" and len(t) > 2 and t[2] == 0 and isinstance(t[1], tuple) and t[1] and t[1][0] == "dc" and isinstance(t[1][1], tuple) and \
+                t[1][1] and t[1][1][0] == "checked" and t[1][1][1] == "Rem":
+            return ("bin", "Rem", _rem_payload(t[1][1][2][0]), _rem_payload(t[1][1][2][1]))
+        return tuple(_rem_payload(x) if isinstance(x, tuple) else x for x in t)
+    return t
+
+
 def run(ctx):
     F = ctx.F()
     tag = F.adts.get(TAG)
@@ -153,6 +163,55 @@ def run(ctx):
                 ok = has(f)
             ctx.check(ok, rule, key, "%s is a fact when the iterator is returned (the failing edge panics)" % text, A.site(),
                       how="dominating-edge fact", why="facts at return: %s" % [G.show(x)[:90] for x in facts])
+    # ---- S3x the rejection is exact: "any other combination is rejected" has a converse - every combination the property admits
+    # (version 1, d >= 40, d % 8 == 0, L % d == 0, 8-aligned map) is answered.  Every panic edge of memory_areas() and of the
+    # private constructor that no fact rules out lies under the negation of one of these five conditions; a stricter test
+    # (`desc_size >= 48`, `desc_size % 16 == 0`) passes S3 / S4, whose facts it entails, and is reported here
+    from .. import panic as P_
+    sz_, al_ = desc["size"], desc["align"]
+    fns_ = [ma[0]] + [F.insts[k] for k in F.insts if F.insts[k].get("impl_self_name") == "EFIMemoryAreaIter" and not F.insts[k].get("impl_trait")
+                      and not F.insts[k].get("closure") and F.insts[k]["body"]["argc"] == 1 and
+                      (F.ty(F.insts[k]["body"]["locals"][1]["ty"]) or {}).get("pointee") == TAG]
+    conds_ = [("cmp", "Ne", dver, ("c", S.EFI_MEMORY_DESCRIPTOR["version"])), ("cmp", "Lt", dsz, ("c", sz_)),
+              ("cmp", "Ne", ("bin", "Rem", dsz, ("c", al_)), ("c", 0)), ("cmp", "Ne", ("bin", "BitAnd", dsz, ("c", al_ - 1)), ("c", 0)),
+              ("cmp", "Ne", ("bin", "Rem", L, dsz), ("c", 0)), ("cmp", "Ne", ("align_offset", ("asptr", mmap), ("c", al_)), ("c", 0)),
+              ("cmp", "Eq", dsz, ("c", 0))]
+    addr_ = [("cast", k_, ("asptr", mmap), "usize") for k_ in ("PointerExposeProvenance", "PtrToInt")] + [("cast", k_, ("asptr", mmap)) for k_ in ("PointerExposeProvenance", "PtrToInt")]
+    conds_ += [("cmp", "Ne", ("bin", "BitAnd", a_, ("c", al_ - 1)), ("c", 0)) for a_ in addr_] + [("cmp", "Ne", ("bin", "Rem", a_, ("c", al_)), ("c", 0)) for a_ in addr_]
+    bad_, n_edges = [], 0
+    for fi_ in fns_:
+        Af = an.of(F, fi_)
+        for s_ in P_.sites_of(F, fi_):
+            if s_.status == "discharged" or s_.kind in ("overflow", "unchecked"):
+                continue
+            n_edges += 1
+            # a panic block reached over several edges (`match x.checked_rem(d) { Some(0) => .., _ => panic!() }`): each way in is judged
+            # on its own facts
+            jb_ = s_.bb
+            for _ in range(4):      # (the join may sit a few plain gotos above the diverging call)
+                pp_ = Af.body.pred[jb_]
+                if len(pp_) == 1 and Af.body.term(pp_[0][0])["k"] in ("goto", "call"):
+                    jb_ = pp_[0][0]         # (the message's `format_args!` call sits between the join and `panic_fmt`)
+                else:
+                    break
+            preds_ = Af.body.pred[jb_]
+            sets_ = [[N(f) for f in Af.g.facts_at(s_.bb)]]
+            if len(preds_) > 1:
+                sets_ = [[N(f) for f in list(Af.g.facts_at(p_)) + list(Af.g.edge_facts(p_, jb_, lab_))] for (p_, lab_) in preds_]
+            for fs_ in sets_:
+                fs_ = [_rem_payload(f) for f in fs_]
+                if s_.kind == "divzero" and s_.terms:
+                    fs_.append(("cmp", "Eq", N(s_.terms[-1]), ("c", 0)))
+                if "chunks_exact" in str(s_.what) and (("cmp", "Ne", dsz, ("c", 0)) in fs_ or G.entails(fs_, ("cmp", "Ge", dsz, ("c", 1))) is not None):
+                    continue        # chunks_exact(d) panics only for d == 0, which the facts exclude
+                if ("const", False) in fs_:
+                    continue        # a way in that no input takes
+                ok_ = any(c in fs_ for c in conds_) or any(G.entails(fs_, c) is not None for c in conds_ if c[1] in ("Lt", "Eq"))
+                if not ok_:
+                    bad_.append("%s: %s %s under %s" % (fi_["name"], s_.kind, s_.what, [G.show(f)[:70] for f in fs_][:5]))
+    ctx.check(not bad_, "S3x", "exact-rejection", "memory_areas() and the private constructor diverge only for a tag the property rejects: every panic edge lies "
+              "under version != 1, desc_size < %d, desc_size %% %d != 0, len %% desc_size != 0 or a misaligned map" % (sz_, al_), A.site(),
+              how="%d panic edge(s) in %s, each under one of the rejecting conditions" % (n_edges, [f_["name"] for f_ in fns_]), why="; ".join(bad_)[:600])
     # ---- S5 who constructs / writes
     ctors = []
     for k, f in F.fns.items():
